@@ -111,20 +111,25 @@ CHECKS = {
 
 # additions of waves 11-12 and of the coverage diagnostic, appended to the level texts above
 EXTRA = {
-    "C02": " The scripted answer strings also run under a caller-supplied step controller (adaptation_fn hook).",
+    "C02": " The scripted answer strings also run under a caller-supplied step controller (adaptation_fn hook); a further call on the same object after its public rtol / atol attributes were tightened.",
     "C03": " Section 'answers' (E2 over environment answers): the integrator's answer 'I took less than you asked' is scripted onto every call of a run in turn and onto pairs of calls (real integrator behind a scripted wrapper, y' = const keeps every oracle exact); the same runs with the progress display switched on (eta=True).",
     "C05": " Tolerances also reach the system through its setters (before / after the method is chosen, after a loose run and a reset).",
-    "C06": " For Richardson wrappers every piece's end slopes are compared with f at the piece's own end points.",
-    "C07": " Clause (g): events_dict holds, per function, exactly that function's tuples of the events list.",
-    "C09": " Configurations with Richardson wrappers of adaptive pairs and an FSAL pair; for wrappers the dense solution between grid points is compared with the closed form.",
-    "C10": " Cells that reuse one integrator object also give it a first call at another scale (1e8 / 1e-8 times the evaluation states).",
-    "C11": " Real steps also on 2x2 and 2x3 matrix states (an ensemble of block problems), column by column against R(z).",
+    "C06": " For Richardson wrappers every piece's end slopes are compared with f at the piece's own end points. Operations reset() and a tolerance setter between runs; 'consts' cells (the system's constants changed between two calls, by assignment and in place).",
+    "C07": " Clause (g): events_dict holds, per function, exactly that function's tuples of the events list. 'Rearmed' cells: the same event function objects served another system before, with other attributes.",
+    "C08": " 'Rearmed' cells as in C07.",
+    "C09": " Configurations with Richardson wrappers of adaptive pairs and an FSAL pair; for wrappers the dense solution between grid points is compared with the closed form. Histories in which an earlier call failed (exception / keyboard interrupt) before the run a terminal event stops.",
+    "C10": " Cells that reuse one integrator object also give it a first call at another scale (1e8 / 1e-8 times the evaluation states); (2, 2) matrix states whose kick mask marks a column.",
+    "C11": " Real steps also on 2x2 and 2x3 matrix states (an ensemble of block problems), column by column against R(z); two consecutive steps of one object in tiny time units (float32 1e-7, float64 1e-15 / 1e-9).",
     "C12": " On the set-ups with dense output every site additionally raises 14 exception classes users really raise (ValueError, LinAlgError, arithmetic errors, RuntimeError, ..., the library's own FailedToMeetTolerances); clause 'swallowed' (the call was reached, nothing propagated).",
     "C14": " Section 'options': return_interval, verbose, tol below eps (must not change the answer), one array-valued function (plain / mask-accepting with zero-filled or untouched masked entries), bounds shared by a list of functions.",
-    "C15": " Cells with the unknowns confined to a box (var_bounds, three boxes) and with verbose output, on both dispatch paths and for the solvers called directly.",
-    "C16": " Operations include set_jac_base_order; a configuration with a column-shaped (3,1) state checks the layout of every answer; finite-difference cells for two second-order systems along a 25-point lattice.",
-    "C18": " Cells with the progress display (show_prog_bar) with and without max_step / first_step / t_eval.",
-    "C19": " Every multi-call history also with lookups (scalar, array, slice, index) made between its calls.",
+    "C15": " Cells with the unknowns confined to a box (var_bounds, three boxes) and with verbose output, on both dispatch paths and for the solvers called directly; systems posed through additional_args / additional_kwargs.",
+    "C16": " Operations include set_jac_base_order; a configuration with a column-shaped (3,1) state checks the layout of every answer; finite-difference cells for two second-order systems along a 25-point lattice; 'reuse' cells in which one wrapper object answers a list of points.",
+    "C18": " Cells with the progress display (show_prog_bar) with and without max_step / first_step / t_eval; output times close together (2.5e-3 apart at |t| ~ 2000, 4e-9 apart near 0.5).",
+    "C19": " Every multi-call history also with lookups (scalar, array, slice, index) made between its calls; histories that monitored (terminal and non-terminal) events.",
+    "C01": " The first instances of every class in a worker process are float32 / float16 ones, built and discarded before the instance under test.",
+    "C13": " Ownership cells: all sequences up to length 3 (thorough 4) over {integrate, reset, del constants, assign constants, read, failing run} with the caller's dictionary compared after every operation.",
+    "C17": " Far cells include intervals of extreme length (2^-43, 1e13, 1e+-110).",
+    "C20": " Operation 'hopdt': a hop shorter than one step whose callbacks assign the step size; the first step of the next call must use it.",
 }
 for _k, _v in EXTRA.items():
     _c = CHECKS[_k]
